@@ -91,7 +91,7 @@ func TestCheck(t *testing.T) {
 	})
 	run.CollectRaces()
 	run.Assume("sessions write disjoint key sets, so the per-key history has a single writer plus Get readers and Flush callers; a FAILED answer is modelled as 'no effect' (whether the failure itself was justified is C04's question)")
-	run.Finish("child processes built with -race: 2-16 Modify sessions (own direct stream or own gRPC connection each) looping negotiate -> announce rising/equal/lower ids -> batches of ADD/REPLACE/DELETE on their own keys -> occasional disconnect/reconnect, with 2-4 Get readers and 0-2 override Flush callers running concurrently, scheduling perturbed at the repository's yield points. Deciding monitors: race detector (reports with a frame in the repository), per-RPC watchdog + quiescent goroutine-dump classifier (deadlock), process exit (panic), porcupine over the recorded history - per key a register with writes/deletes/flushes/reads from Get, and the announcements as a max-register - and at quiescence: hooked reference counters == referrers recounted, nothing held, reported id == maximum announced, exactly the entitled session can program. Distinct = by run and its interleaving signature (order in which sessions first became primary)", 5, false)
+	run.Finish("child processes built with -race: 2-16 Modify sessions (own direct stream or own gRPC connection each) looping negotiate -> announce rising/equal/lower ids -> batches of ADD/REPLACE/DELETE on their own keys -> occasional disconnect/reconnect (half of them in the middle of a large batch: unread, after one answer, or after the server ended the RPC on an unstamped operation with the rest of the batch behind it), with 2-4 Get readers and 0-2 override Flush callers running concurrently, scheduling perturbed at the repository's yield points. Deciding monitors: race detector (reports with a frame in the repository), per-RPC watchdog + quiescent goroutine-dump classifier (deadlock), process exit (panic), porcupine over the recorded history - per key a register with writes/deletes/flushes/reads from Get, and the announcements as a max-register - and at quiescence: hooked reference counters == referrers recounted, nothing held, reported id == maximum announced, exactly the entitled session can program. Plus, per child, scenarios with a Get whose reader has stopped part-way through one instance and a Flush of that instance queued behind it: negotiation, election, operations, Get and Flush that do not involve that instance must all be answered before the reader resumes. Distinct = by run and its interleaving signature (order in which sessions first became primary)", 5, false)
 }
 
 // ---------------------------------------------------------------- child side
@@ -174,6 +174,16 @@ func TestChild(t *testing.T) {
 			return // a watchdog fired: the stuck goroutines would only make later runs slower
 		}
 	}
+	for k := 0; k < 4; k++ {
+		caseID := fmt.Sprintf("child-%d/stall-%d", b, k)
+		if sp.Case != "" && sp.Case != caseID {
+			continue
+		}
+		wr.InFlight(caseID)
+		if stop := stallScenario(wr, caseID, rand.New(rand.NewSource(sp.Seed*1000033+int64(b)*137+int64(k)))); stop {
+			return
+		}
+	}
 }
 
 func oneRun(wr *child.Writer, caseID string, r *rand.Rand, thorough bool) (stop bool) {
@@ -235,7 +245,7 @@ func oneRun(wr *child.Writer, caseID string, r *rand.Rand, thorough bool) (stop 
 	var primMu sync.Mutex
 	var flushOverlapped atomic.Bool
 	var writersActive atomic.Int32
-	var nOps, nAcked, nFailed, nGets, nFlushes, nReconnects, nAnn, nNegRetries, nHeld atomic.Int64
+	var nOps, nAcked, nFailed, nGets, nFlushes, nReconnects, nAnn, nNegRetries, nHeld, nMidBatch atomic.Int64
 
 	var watchdogFired atomic.Bool
 	watchdog := func(what string) {
@@ -425,8 +435,33 @@ func oneRun(wr *child.Writer, caseID string, r *rand.Rand, thorough bool) (stop 
 				}
 				switch rr.Intn(10) {
 				case 0:
-					// drop and reconnect
+					// drop and reconnect - half of the time in the MIDDLE of a batch: a request
+					// with many operations on a scratch key (not part of the checked history)
+					// is written and the session goes away without reading the answers, after
+					// reading one, or after the server itself ended the RPC on an operation
+					// that carries no election id while the rest of the batch is still queued
+					// behind it. Whatever is applied of it, the server must survive.
 					if rr.Intn(2) == 0 {
+						var batch []*spb.AFTOperation
+						nb := 10 + rr.Intn(40)
+						variant := rr.Intn(3)
+						for k := 0; k < nb; k++ {
+							opID++
+							op := &spb.AFTOperation{Id: opID, NetworkInstance: ks.ni, Op: spb.AFTOperation_ADD, ElectionId: last,
+								Entry: &spb.AFTOperation_NextHop{NextHop: &aftpb.Afts_NextHopKey{Index: uint64(9000 + sid), NextHop: &aftpb.Afts_NextHop{IpAddress: gen.S("198.51.100.9"), VniLabel: gen.U(uint64(k + 1))}}}}
+							if variant == 2 && k == 2 {
+								op.ElectionId = nil
+							}
+							batch = append(batch, op)
+						}
+						if s.Write(&spb.ModifyRequest{Operation: batch}) && variant >= 1 {
+							if _, err := s.Read(); err == drv.ErrWatchdog {
+								watchdog(fmt.Sprintf("s%d first answer of a large batch", sid))
+								return
+							}
+						}
+						nMidBatch.Add(1)
+					} else if rr.Intn(2) == 0 {
 						s.CloseSend()
 					}
 					closeFn()
@@ -794,7 +829,7 @@ func oneRun(wr *child.Writer, caseID string, r *rand.Rand, thorough bool) (stop 
 	}
 	wr.Record(map[string]any{"kind": "run", "case": caseID, "sessions": nSess, "readers": nReaders, "flushers": nFlush,
 		"operations": nOps.Load(), "operations_acknowledged": nAcked.Load(), "operations_failed_in_band": nFailed.Load(), "gets": nGets.Load(), "flushes": nFlushes.Load(),
-		"reconnects": nReconnects.Load(), "negotiation_retries": nNegRetries.Load(), "operations_held": nHeld.Load(), "announcements": nAnn.Load(), "history_events": len(rec.ops), "flush_overlapped_runs": b2i(flushOverlapped.Load()),
+		"reconnects": nReconnects.Load(), "sessions_dropped_in_the_middle_of_a_batch": nMidBatch.Load(), "negotiation_retries": nNegRetries.Load(), "operations_held": nHeld.Load(), "announcements": nAnn.Load(), "history_events": len(rec.ops), "flush_overlapped_runs": b2i(flushOverlapped.Load()),
 		"signature": fmt.Sprint(primOrder), "yield_points": y.Hits(), "history_head": head})
 	return watchdogFired.Load()
 }
